@@ -125,11 +125,24 @@ func Spec(prop, tier string) *core.CheckSpec {
 			Property: "C08", Level: "exploration",
 			Rule: "every Go function reachable from the global environment, package.loaded, metatables of standard values and values returned by library functions (iterators, wrappers, context objects) x all 15 non-empty subsets of required flags x 2 sampled argument tuples (paths and shell commands aimed at a private sentinel directory holding a secret) x a sampled call spelling (direct, pcall, __index metamethod, coroutine.wrap). Oracle: undeclared flag => 'missing flags' error, context live, sentinel untouched; iosafe declared and required => sentinel byte-identical and the secret never returned. One run covers one function; the function x flag-subset grid is exhaustive once runs >= number of functions x a small factor (counted)",
 			Batches: []core.Batch{
-				{Engine: "flags", Mode: "", Runs: n(2500, 200000), Millis: ms(40000, 600000), Chunk: 400, HangS: 60},
+				{Engine: "flags", Mode: "", Runs: n(12000, 400000), Millis: ms(40000, 600000), Chunk: 400, HangS: 60},
 			},
 			Real:   realAll,
 			Stub:   []string{"the operating system is real; effects are observed on a private sentinel directory (snapshot before/after every call)"},
 			Assume: []string{"read-only access whose result is not returned, and network access, are not observable by this oracle (the strace seam of the design was not built)"},
+		}
+	case "C04":
+		return &core.CheckSpec{
+			Property: "C04", Level: "exploration",
+			Rule: "three workloads under CPU/memory limits that can land anywhere in scanner, parser, compiler, VM and libraries: (src) generated valid programs with 1-4 byte flips/truncations/insertions/deletions/splices applied to the stored source before compilation; (lib) every Go function reachable from the global table x 0-4 arguments from an edge pool (nil, booleans, extreme ints/floats, NaN, hostile formats/patterns, NUL and invalid UTF-8, tables with erroring or self-recursive metamethods, dead/suspended/fresh coroutines, standard files, a context object); (ramp) 20 depth/size ramp templates with N up to 10^6 whose value is known by construction. Oracle at the process boundary: no Go panic escapes, the worker process survives (journal + solo re-run), the case returns (watchdog), ramps return the right value or an ordinary error/kill. Every case is non-trivial; distinct = hash of the case",
+			Batches: []core.Batch{
+				{Engine: "crash", Mode: "src", Runs: n(20000, 3000000), Millis: ms(25000, 500000)},
+				{Engine: "crash", Mode: "lib", Runs: n(30000, 3000000), Millis: ms(25000, 500000)},
+				{Engine: "crash", Mode: "ramp", Runs: n(600, 60000), Millis: ms(30000, 600000), Workers: 6, HangS: 180, Chunk: 100},
+			},
+			Real:   realAll,
+			Stub:   []string{"limits (kill points) and corrupted bytes come from the tape; the operating system is real (working directory moved to a scratch directory, destructive functions excluded from the lib workload)"},
+			Assume: []string{"binary chunks (string.dump output) are not corrupted here: the manual allows load to misbehave on malicious binary chunks", "os.exit, os.execute, io.popen, os.remove/rename, dofile/loadfile/require and other file-opening functions are excluded from the lib workload"},
 		}
 	case "C20":
 		return &core.CheckSpec{
